@@ -1055,3 +1055,149 @@ func runYIELDPAIR(c *Ctx) {
 		}
 	}
 }
+
+// ---- ROOTDIRTY ------------------------------------------------------------------------
+
+func init() {
+	Register(&Rule{ID: "ROOTDIRTY", Props: []string{"C13"}, Min: 3,
+		Doc: "IsDirty answers from the root alone, so every root a mutator installs must make it answer 'modified': in everything reachable from Insert and Delete, each store to Mast.root stores an in-memory node that is marked dirty (the first path node after the normalising loop, or the result of the link constructor for a node DIRTYNEW checks), possibly through a nil-or-node helper; a nil root (the tree was emptied) is accepted only together with a store of the 'emptied since the last persisted version' mark that IsDirty reads; a name or a child link taken from a loaded node is never installed directly.",
+		Run: runROOTDIRTY})
+}
+
+func runROOTDIRTY(c *Ctx) {
+	P := c.P
+	muts := c.Entries("(*Mast).Insert", "(*Mast).Delete")
+	if len(muts) == 0 {
+		return
+	}
+	A := c.Facts.Own()
+	ms := c.P.MastFunc("(*Mast).store")
+	// the mark IsDirty reads besides root.dirty: a bool field of Mast loaded in IsDirty
+	marks := map[string]bool{}
+	if isd := c.MustFunc("(*Mast).IsDirty"); isd != nil {
+		for _, b := range isd.Blocks {
+			for _, ins := range b.Instrs {
+				if ld, ok := ins.(*ssa.UnOp); ok && ld.Op == token.MUL {
+					if fa, ok := ld.X.(*ssa.FieldAddr); ok && ir.IsPtrToNamed(fa.X.Type(), "Mast") {
+						if bt, ok := ld.Type().Underlying().(*types.Basic); ok && bt.Kind() == types.Bool {
+							marks[ir.FieldName(fa.X.Type(), fa.Field)] = true
+						}
+					}
+				}
+			}
+		}
+	}
+	var classify func(v ssa.Value, at ssa.Instruction, env *penv, d int) (string, bool) // ("dirty node"|"nil", ok)
+	classify = func(v ssa.Value, at ssa.Instruction, env *penv, d int) (string, bool) {
+		if d > 6 {
+			return "too deep", false
+		}
+		v = ir.Strip(ir.ResolveCell(v))
+		if ir.IsNilConst(v) {
+			return "nil", true
+		}
+		switch x := v.(type) {
+		case *ssa.Phi:
+			kind := ""
+			for _, e := range x.Edges {
+				k, ok := classify(e, at, env, d+1)
+				if !ok {
+					return k, false
+				}
+				if kind == "" || k == "nil" {
+					if kind != "nil" || k == "nil" {
+						kind = k
+					}
+				}
+				if k == "nil" {
+					kind = "nil-or-node"
+				}
+			}
+			return kind, true
+		case *ssa.Parameter:
+			if a, up, ok := env.lookup(x); ok {
+				return classify(a, at, up, d+1)
+			}
+			return "a parameter", false
+		case *ssa.UnOp:
+			if x.Op == token.MUL && isNodePtr(x.Type()) {
+				if why := A.normalisedAt(x, addrSym(x.X)); why != "" {
+					return "dirty node", true
+				}
+			}
+			return "a value loaded from " + pathDesc(ir.Sym(x.X)) + " (not known to be a dirty in-memory node)", false
+		case *ssa.Extract:
+			if call, ok := x.Tuple.(*ssa.Call); ok && x.Index == 0 {
+				if ms != nil && ir.Callee(call.Call) == ms {
+					return "dirty node", true // the link constructor hands back the node; DIRTYNEW checks its flag
+				}
+			}
+		case *ssa.Call:
+			if rets, ne, _ := helperReturns(x, env); rets != nil {
+				kind := ""
+				for _, rv := range rets {
+					k, ok := classify(rv, at, ne, d+1)
+					if !ok {
+						return k, false
+					}
+					if k != "dirty node" {
+						kind = "nil-or-node"
+					} else if kind == "" {
+						kind = k
+					}
+				}
+				return kind, true
+			}
+		}
+		return "a value of unrecognised origin (" + pathDesc(ir.Sym(v)) + ")", false
+	}
+	reach := c.Facts.Reach(muts...)
+	for _, fn := range P.Funcs {
+		if !reach[fn] {
+			continue
+		}
+		for _, b := range fn.Blocks {
+			if ir.IsDead(b) {
+				continue
+			}
+			for _, ins := range b.Instrs {
+				base, f, st, ok := mastFieldStore(ins)
+				if !ok || f != "root" {
+					continue
+				}
+				if _, local := ir.ResolveCell(base).(*ssa.Alloc); local {
+					continue
+				}
+				pos := P.InstrPos(st)
+				what := "root installed by " + ir.FuncName(fn)
+				kind, ok := classify(st.Val, st, nil, 0)
+				if !ok {
+					c.Violation(fn, pos, "mutator installs a root IsDirty cannot see as modified",
+						"the new root is "+kind+": when it is a name or a node that is not marked dirty, IsDirty answers 'clean' although the contents differ from the version the tree was loaded from or last persisted as")
+					continue
+				}
+				if kind == "dirty node" {
+					c.OK(pos, what, "a dirty in-memory node", false)
+					continue
+				}
+				// nil (or nil-or-node): the emptied mark must be set wherever the nil can be stored
+				marked := false
+				for _, bb := range fn.Blocks {
+					for _, i2 := range bb.Instrs {
+						if _, f2, st2, ok := mastFieldStore(i2); ok && marks[f2] {
+							if v, isC := ir.ConstBool(st2.Val); isC && v && (ir.InstrReaches(st, st2) || ir.InstrReaches(st2, st)) {
+								marked = true
+							}
+						}
+					}
+				}
+				if marked {
+					c.OK(pos, what, kind+", with the emptied mark IsDirty reads", false)
+				} else {
+					c.Violation(fn, pos, "root set to nil without a mark IsDirty can read",
+						"when the last entry is deleted the root becomes nil; IsDirty finds no node to ask and answers 'clean', although the tree no longer equals the (non-empty) version it was loaded from or last persisted as")
+				}
+			}
+		}
+	}
+}
